@@ -758,6 +758,11 @@ pub fn c14(ctx: &Ctx) -> Report {
                 Some(b) => b.into_iter().map(|x| x.unwrap_or_default().into_iter().map(|e| show_kv(&Some(e))).collect()).collect(),
                 None => continue,
             };
+            // the theorem's hypothesis NoShortCollision(Meta), evaluated by the proved checker on small images
+            if c.img.len() <= 2500 && i % 4 == 0 {
+                let r = d.ask(&format!("no_short_collision {} {}", c.cfg.pol.name(), hex(&c.img)));
+                rep.count(&format!("no_short_collision_{}", r.replace(' ', "_")));
+            }
             let keys: Vec<Vec<u8>> = c.es.iter().map(|e| e.0.clone()).collect();
             let scenario = |with_open: bool| -> Vec<Op> {
                 let mut ops = vec![];
